@@ -857,7 +857,24 @@ pub fn cmd(args: &[String]) -> i32 {
         }
     });
     let g = acc.into_inner().unwrap();
-    let findings: Vec<Value> = g.groups.iter().map(|((kind, sig), (n, ex))| json!({"property": "C16", "kind": kind, "signature": sig, "count": n, "example": ex})).collect();
+    // C16 speaks about acceptance only.  A verifier panic on metadata is a refusal; a foreign circuit whose verifying data
+    // coincides with (or is taken from) the proof is not an alteration that rescues an invalid trace.  Both are recorded as
+    // observations (property "C16-observation"), not as violations of C16.
+    let obs = ["verify-panics-on-metadata", "foreign-common-data-accepted", "foreign-circuit-has-identical-common-data"];
+    let mut merged: BTreeMap<(String, String), (u64, Value)> = BTreeMap::new();
+    for ((kind, sig), (n, ex)) in g.groups.iter() {
+        let sig2 = if obs.contains(&kind.as_str()) {
+            // observations: configuration + altered fields only
+            let shape = sig.split_once('@').map(|x| x.1).unwrap_or("");
+            let parts: Vec<&str> = shape.split('+').collect();
+            format!("{kind}@{}+{}", parts.first().copied().unwrap_or(""), parts.get(2).copied().unwrap_or(""))
+        } else {
+            sig.clone()
+        };
+        let e = merged.entry((kind.clone(), sig2)).or_insert((0, ex.clone()));
+        e.0 += n;
+    }
+    let findings: Vec<Value> = merged.iter().map(|((kind, sig), (n, ex))| json!({"property": if obs.contains(&kind.as_str()) { "C16-observation" } else { "C16" }, "kind": kind, "signature": sig, "count": n, "example": ex})).collect();
     let cover: BTreeMap<&String, Value> = g.cover.iter().map(|(k, m)| (k, json!(m.iter().map(|(v, (n, why))| (v.clone(), json!({"n": n, "why": why}))).collect::<BTreeMap<_, _>>()))).collect();
     let res = json!({"stats": g.stats, "serializer": "serde_json", "findings": findings, "cover": cover, "samples": g.samples, "errors": g.errors});
     std::fs::write(&outp, serde_json::to_string_pretty(&res).unwrap()).unwrap();
